@@ -27,9 +27,11 @@ RULE = ("exponent maps over 1-4 symbols (every order), integer exponents in [-4,
         "non-integer exponent; quick: all single-symbol maps + 500 sampled; thorough: exhaustive")
 ASSUMPTIONS = ["exponents with denominator <= 10 (Fraction.limit_denominator(10) is the identity "
                "there); binary64 exponents p/q are read back as exact fractions",
-               "no compound-unit definitions active (those are C18)"]
+               "no compound-unit definitions active AT THE TIME of the judged print (definitions that "
+               "were active earlier in the session and have been cleared are part of the histories; "
+               "results under active definitions are C18)"]
 TRUSTED = ["modelled not verified: str.format, Fraction.limit_denominator, numpy object arrays"]
-LEVEL_TEXT = ('Lean 4 theorem C13_roundtrip: for every exponent map (any number of well-formed symbols, any non-zero rational exponents) and both styles, the string the model printer writes (incl. the 1/ numerator, bracketed denominators and ^(p/q) powers) is accepted by the model parser and means the same exponents; built on the C12 theorems. Tied to the code by the translator pins and a differential run (exhaustive 111 392 maps x 2 styles in the thorough tier, float power chains, assignment and array edits).')
+LEVEL_TEXT = ('Lean 4 theorem C13_roundtrip: for every exponent map (any number of well-formed symbols, any non-zero rational exponents) and both styles, the string the model printer writes (incl. the 1/ numerator, bracketed denominators and ^(p/q) powers) is accepted by the model parser and means the same exponents; built on the C12 theorems. Tied to the code by the translator pins and a differential run (exhaustive 111 392 maps x 2 styles in the thorough tier, float power chains, assignment and array edits); C13_roundtrip_after_history: the same after any define / print / clear history that ends with no definition active (such histories run before the judged print).')
 LEVEL_NOTE = ("round trip proved for the Lean printer/parser for all exponent maps (any size, any "
               "non-zero rational exponents, both styles); tied to the code by the differential run")
 TECHNIQUE = "Lean 4 theorems over an exact model of printer and parser"
